@@ -182,13 +182,47 @@ package utils
 //@ func excludeAllLabels [C04,C12]
 //@   ensures sameLists(result, s) && result.FixedLabels == s.FixedLabels && modifiesNone(s.IncludedLabels)
 
-// walkNode is the recursive dispatcher of the analysis. Its contract is TRUSTED (listed as an assumption): the
+// walkNode is the recursive dispatcher of the analysis. Two of its postconditions are ASSUMED (listed): the
 // sources it returns are well-formed and their label lists were allocated by the call itself (they are built from
-// nil by appendToSlice), so they share no array with the query's own label lists (Grouping, MatchingLabels, ...).
+// nil by appendToSlice), so they share no array with the query's own label lists (Grouping, MatchingLabels, ...),
+// and the call writes no label array that existed before it.
 //@ spec func freshLists(s Source) bool = fresh(s.IncludedLabels) && fresh(s.ExcludedLabels) && fresh(s.GuaranteedLabels)
 //@ func walkNode [C04,C12]
-//@   trusted
-//@   ensures forall i int :: 0 <= i && i < len(result) ==> wfS(result[i]) && freshLists(result[i])
+//@   option elemlinks split32
+//@   assumed ensures forall i int :: 0 <= i && i < len(result) ==> wfS(result[i]) && freshLists(result[i])
+//@   assumed ensures modifiesNone(result[0].IncludedLabels)
+//@   assumed callee-requires utils.parseBinOps
+//@   ghost ev []string
+//@   ghost gl []string
+//@   after call labelsWithEmptyValueSelector set ev = result
+//@   after call labelsFromSelectors set gl = result
+//@   loop 2 invariant 0 <= iter2 && iter2 <= len(ev) && node == old(node) && !s.FixedLabels && len(s.IncludedLabels) == 0
+//@   loop 2 invariant wfS(s)
+//@   loop 2 invariant sepS(s, ev) && sepS(s, gl)
+//@   loop 2 invariant subset(s.ExcludedLabels, ev)
+//@   loop 2 invariant subset(s.GuaranteedLabels, gl)
+//@   loop 2 invariant forall i int :: 0 <= i && i < len(ev) ==> emptyMatcher(n, ev[i])
+//@   loop 2 invariant forall i int :: 0 <= i && i < len(gl) ==> positiveMatcher(n, gl[i])
+//@   at call append#6 assert s.FixedLabels && len(s.IncludedLabels) == 0 && len(s.GuaranteedLabels) == 0
+//@   at call append#8 assert s.FixedLabels && len(s.IncludedLabels) == 0 && len(s.GuaranteedLabels) == 0
+//@   at call append#10 assert !s.FixedLabels && len(s.IncludedLabels) == 0
+//@   at call append#10 assert forall i int :: 0 <= i && i < len(s.ExcludedLabels) ==> emptyMatcher(n, s.ExcludedLabels[i])
+//@   at call append#10 assert forall i int :: 0 <= i && i < len(s.GuaranteedLabels) ==> positiveMatcher(n, s.GuaranteedLabels[i])
+
+// A selector excludes a label only for a matcher `label=""`, and guarantees a label only for a positive matcher
+// (= or =~) on it.
+//@ spec func emptyMatcher(sel *promParser.VectorSelector, x string) bool = exists k int :: 0 <= k && k < len(sel.LabelMatchers) &&
+//@      sel.LabelMatchers[k].Name == x && sel.LabelMatchers[k].Type == labels.MatchEqual && sel.LabelMatchers[k].Value == ""
+//@ spec func positiveMatcher(sel *promParser.VectorSelector, x string) bool = exists k int :: 0 <= k && k < len(sel.LabelMatchers) &&
+//@      sel.LabelMatchers[k].Name == x && (sel.LabelMatchers[k].Type == labels.MatchEqual || sel.LabelMatchers[k].Type == labels.MatchRegexp)
+//@ func labelsWithEmptyValueSelector [C04]
+//@   option elemlinks
+//@   assumed requires
+//@   requires selector != nil
+//@   ensures nodup(names) && fresh(names) && modifiesNone(names)
+//@   ensures forall i int :: 0 <= i && i < len(names) ==> emptyMatcher(selector, names[i])
+//@   loop 1 invariant nodup(names) && fresh(names) && modifiesNone(names) && selector == old(selector)
+//@   loop 1 invariant forall i int :: 0 <= i && i < len(names) ==> emptyMatcher(selector, names[i])
 
 // Aggregations. by(L): the result carries only labels of L - a label not in L cannot be present, and a label of L
 // the input could carry stays possible; without(L): the labels of L are gone and every other label is as before.
@@ -269,7 +303,13 @@ package utils
 //@ func labelsFromSelectors [C04,C12]
 //@   option elemlinks
 //@   ensures nodup(names) && fresh(names) && modifiesNone(names)
-//@   loop 1 invariant nodup(names) && fresh(names) && modifiesNone(names)
+//@   ensures selector != nil ==> (forall i int :: 0 <= i && i < len(names) ==> (exists k int :: 0 <= k && k < len(selector.LabelMatchers) && selector.LabelMatchers[k].Name == names[i] && in2(matches, selector.LabelMatchers[k].Type)))
+//@   loop 1 invariant nodup(names) && fresh(names) && modifiesNone(names) && selector == old(selector) && matches == old(matches)
+//@   loop 1 invariant forall i int :: 0 <= i && i < len(names) ==> (exists k int :: 0 <= k && k < len(selector.LabelMatchers) && selector.LabelMatchers[k].Name == names[i] && in2(matches, selector.LabelMatchers[k].Type))
+//@ spec func in2(ms []labels.MatchType, t labels.MatchType) bool = contains(ms, t)
+// The package variable guaranteedLabelsMatches is initialised to {MatchEqual, MatchRegexp} and never assigned (an
+// assumption about package initialisation, which the engine does not execute).
+//@ axiom guaranteed_kinds: forall t labels.MatchType :: in2(guaranteedLabelsMatches, t) ==> t == labels.MatchEqual || t == labels.MatchRegexp
 //@ spec func restricting(f string) bool = f == "absent" || f == "absent_over_time" || f == "days_in_month" || f == "day_of_month" || f == "day_of_week" || f == "day_of_year" ||
 //@      f == "hour" || f == "minute" || f == "month" || f == "year" || f == "pi" || f == "scalar" || f == "time" || f == "vector"
 //@ func parsePromQLFunc [C02,C04]
@@ -277,4 +317,11 @@ package utils
 //@   option elemlinks split32
 //@   requires wfS(s) && n != nil && n.Func != nil
 //@   loop 1 invariant wfS(s) && n == old(n)
+//@   loop 2 invariant wfS(s) && n == old(n)
+//@   ghost lit string
+//@   ghost litOK bool
+//@   after call stringLiteralValue set lit = result0
+//@   after call stringLiteralValue set litOK = result1
+//@   ensures wfS(result)
+//@   ensures (n.Func.Name == "label_replace" || n.Func.Name == "label_join") && litOK ==> canHave(result, lit) && in(result.GuaranteedLabels, lit)
 //@   ensures !restricting(n.Func.Name) ==> (forall x string :: canHave(s, x) ==> canHave(result, x))
